@@ -143,7 +143,10 @@ CLAIMED.update({
               "value, containers of samples reach non-container results only through reviewed shape functions or the crate's own (inductively checked) functions, and the concrete "
               "f32/f64 impls contain no float comparison or float->integer cast, nothing instantiated at the sample type returns a size or identity of the type (size_of::<T>() etc.), and the "
               "CoerceFrom impls are plain conversions. Generic code cannot otherwise compare or cast T, so frame counts and control decisions are identical for "
-              "both instantiations. A positive control (sinc::sinc's == on T) must be found on every run. Numeric closeness of outputs is NOT decided."),
+              "both instantiations. A positive control (sinc::sinc's == on T) must be found on every run. For the value half only structural necessary conditions are decided: the "
+              "table-building code computes every point in closed form (no loop-carried accumulation in the sample type besides the reviewed normalisation sum), both instantiations build the "
+              "table from the same argument formula, and the f32 and f64 kernels and packers of every instruction set add exactly the same products of an unmodified table. The numeric "
+              "bound itself (k*eps) is NOT decided."),
         note="Trusted: rustc MIR and trait resolution, parametricity of generic std code, a 4-entry reviewed table.",
         design="5 C17", engine="mirfacts(P)+rules"),
     "C18": dict(
@@ -153,7 +156,10 @@ CLAIMED.update({
               "call; constructors reach only rubato's immutable FEATURES tables and the reviewed std_detect cache; no pointer->integer casts, alignment queries, inline asm or access to the "
               "per-thread floating-point control register anywhere in rubato (all targets); every struct field "
               "is owned (no Rc/Cell/Mutex/Atomic/raw pointer), the only shared handles being Arc'd immutable FFT plans; (thorough) Send witnesses for all 14 instantiations and the boxed "
-              "wrapper plus compile-fail witnesses with compiling twins. Hence every interleaving is equivalent to a sequential one."),
+              "wrapper plus compile-fail witnesses with compiling twins. Hence every interleaving is equivalent to a sequential one. Memory that is not the instance's own is a hidden input too: "
+              "no body obtains uninitialised or reinterpreted storage (set_len, MaybeUninit, raw allocation, transmute: type-resolved call sites plus syntax tree), and the unchecked indexing "
+              "of the two polynomial resamplers stays inside the instance's buffers (C03's rules for those types; the two fixed-input defects recorded under C03 are demonstrated and "
+              "recorded for C18 as well: KNOWN-FINDING)."),
         note="Trusted: rustc MIR, immutability of realfft/rustfft plans, planner determinism; constructor half is best effort (indirect calls listed in evidence).",
         design="5 C18", engine="mirfacts(M+P)+astfacts+witness"),
 
@@ -203,6 +209,23 @@ PENDING_REASON = "decidable clauses not built yet (implementation in progress, s
 NA = {}
 
 
+def rules_sentence(pid):
+    """the rule families the check actually evaluated last time (from its evidence file): own rules plus those shared from other properties"""
+    p = os.path.join(VERIF, "evidence", "%s.json" % pid)
+    try:
+        with open(p) as f:
+            ri = json.load(f)["coverage"]["rule_instances"]
+    except (OSError, KeyError, ValueError):
+        return ""
+    own = sorted(r for r in ri if r.startswith("R-%s-" % pid))
+    shared = sorted(r for r in ri if not r.startswith("R-%s-" % pid))
+    s = " Rule families evaluated on every run: " + ", ".join("%s (%d)" % (r, ri[r]["found"]) for r in own) + "."
+    if shared:
+        s += (" Included as necessary conditions of this property although first written for another (a change that breaks one of them breaks this property too): "
+              + ", ".join("%s (%d)" % (r, ri[r]["found"]) for r in shared) + ".")
+    return s
+
+
 def main():
     checks = []
     for pid in ALL:
@@ -216,7 +239,7 @@ def main():
             "evidence_file": "/verif/evidence/%s.json" % pid,
             "replay_cmd_template": "./check %s --explain {path}" % pid,
             "engine": c["engine"],
-            "level_claimed": {"category": c["level"], "text": c["text"], "design_ref": "DESIGN.md section " + c["design"]},
+            "level_claimed": {"category": c["level"], "text": c["text"] + rules_sentence(pid), "design_ref": "DESIGN.md section " + c["design"]},
             "level_note": c["note"],
             "technique": c["technique"],
         })
@@ -232,7 +255,7 @@ def main():
          "kind_free_text": "Python rule layer: forward substitution, bit-exact / algebraic normal forms (sympy), guard dominance, fail-closed floors"},
     ]
     if os.path.isdir(os.path.join(VERIF, "mirfacts")):
-        engines.append({"name": "mirfacts", "path": "mirfacts/", "serves_properties": [p for p in ("C09", "C16", "C17", "C18", "C13") if p in CLAIMED],
+        engines.append({"name": "mirfacts", "path": "mirfacts/", "serves_properties": [p for p in ("C03", "C09", "C16", "C17", "C18", "C13") if p in CLAIMED],
                         "kind_free_text": "rustc_private driver (nightly): resolved MIR call graph (monomorphic instance walk), casts, statics"})
     m = {
         "version": 1,
